@@ -143,11 +143,11 @@ CHECKS = {
              'sets, i.e. any table slot order), identical under the identity order, type tags preserved; the unrestricted statement is REFUTED with the '
              'witness {"__extn": {...}} (known finding F17). Entities and entity maps (Impl/EntityJson.v, ejsonenc / ejsondec correspondences): decoding the '
              'encoding of an entity map yields the same entities in the sorted order of the encoding, the second encoding is identical, implicit and explicit '
-             'spellings of uids and parents decode to the same store, the document does not depend on map traversal order. Direct oracle on the Go code: values, entities, entity maps, requests, decisions, '
+             'spellings of uids and parents decode to the same store, the document does not depend on map traversal order. Requests, decisions and diagnostics (Impl/RequestJson.v, rjsonenc / rjsondec / djsonenc / djsondec / decjson correspondences): exact round trip of every request with a json_safe context, independent spellings of principal / action / resource decode to the same request, second encoding identical; diagnostics round-trip exactly iff their positions are 64-bit ints (omitted empty lists included) and a decoded diagnostic never holds an out-of-range int; decoders total. Schema-guided coercion (Impl/Coerce.v, tied to x/exp/types/json.go through the hook VerifCoerceValue; Proofs/CoerceProofs.v when present). Direct oracle on the Go code: values, entities, entity maps, requests, decisions, '
              'diagnostics round-trip and re-encode byte-identically; all spellings (explicit, {fn,arg}, bare string, implicit entity, schema-guided '
              'coercion) decode to equal values.',
         note=TB + 'bytes <-> tree is encoding/json (stdlib, not modelled). The ip round trip hypothesis of the value theorem is discharged for the modelled printer by C12_ipaddr_roundtrip (Proofs/IPProofs.v). Known: F16, F17, F27, F30.',
-        technique='Coq round-trip proofs on JSON trees (values, entities, entity maps) + enc/dec correspondences + Go round-trip / spelling oracle'),
+        technique='Coq round-trip proofs on JSON trees (values, entities, entity maps, requests, diagnostics) + enc/dec and coercion correspondences + Go round-trip / spelling oracle'),
     'C14': dict(
         level='proof', design='§6 C14',
         text='Theorems (Properties/C14.v): in the model every Go map is a list in arbitrary order; evaluation (value AND which error surfaces) is invariant '
@@ -246,7 +246,7 @@ def main():
         setup_cmd='python3 py/check.py --setup',
         hooks=dict(guard='verif', enable='go build -tags verif (harness/build.sh)',
                    baseline_off_cmd='cd /repo && go test -mod=mod -json -vet=off -count=1 -timeout 25m ./...',
-                   source_commits=['e355874', '9eabaaf', '2b580c9'], add_only=True),
+                   source_commits=['e355874', '9eabaaf', '2b580c9', '5e62a87'], add_only=True),
         engines=[dict(name='coq-proof+correspondence', path='py/check.py',
                       serves_properties=sorted(CHECKS),
                       kind_free_text='Coq 8.16 development under coq/ (model + theorems), extracted to OCaml (ocaml/), compared with the Go '
